@@ -113,11 +113,11 @@ def _reader_scenario(rng):
             jobs.append({"call": 0, "timings": [["c", T]], "skip": rng.random() < 0.8, "start": [clock - rng.randint(2, 6) * T, None], "tags": []})
         else:
             call = rng.choice([1, 1, 2])
-            t = ["t", 0, rng.randrange(60) if call == 2 else 0, rng.randrange(60), 0, None]
-            jobs.append({"call": call, "timings": [t], "skip": rng.random() < 0.8, "tags": [],
+            ts = [["t", 0, rng.randrange(60) if call == 2 else 0, sec, 0, None] for sec in rng.sample(range(60), rng.choice([1, 1, 2, 3]))]
+            jobs.append({"call": call, "timings": ts, "is_list": len(ts) > 1, "skip": rng.random() < (0.8 if len(ts) == 1 else 0.4), "tags": [],
                          "start": [clock - rng.randint(2, 6) * (60 if call == 1 else 3600) * S_, None]})
     nj = len(jobs)
-    threads = [[{"op": "exec", "force": rng.random() < 0.3}] for _ in range(rng.randint(1, 2))]
+    threads = [[{"op": "exec", "force": rng.random() < 0.2}] for _ in range(rng.randint(1, 3))]
     for _ in range(rng.randint(1, 2)):
         threads.append([{"op": "due", "key": rng.randrange(nj), "reps": rng.choice([20, 40, 80])} for _ in range(rng.randint(1, 2))])
     return {"kind": "readers", "tz": None, "n_threads": 1, "clock0": clock, "advance": rng.choice([0, 1, 7, 61, 3700]) * S_ + rng.choice([0, 500_000]),
@@ -147,6 +147,13 @@ def specs(r, calls=(1, 2, 3)):  # noqa: F811
     if out.get("deadlock") or out.get("error"):
         qs.append(("spec eq 0 1", {"what": "concurrent readers: deadlock or a thread died", "detail": out.get("deadlock") or out.get("error")}))
         return qs
+    # "each execution moves the due time to the next such instant": with overlapping callers too, the number of completed
+    # reschedulings of an (unlimited) job equals the number of its executions - a run that was skipped must not move the timer
+    if out.get("due_timeline") is not None and not any(x["op"] == "exec" and x["args"].get("force") for x in out["records"]):
+        for k, v in (out.get("jobs") or {}).items():
+            if v[3] == 0:
+                qs.append((f"spec eq {(out.get('reschedulings') or {}).get(k, 0)} {v[0]}",
+                           {"what": "concurrent callers: every execution moves the due time exactly once (reschedulings = executions)", "key": k}))
     stable = {int(k): set(v) for k, v in (out.get("stable_dues") or {}).items()}
     for rec in out["records"]:
         if rec["op"] != "due":
